@@ -191,6 +191,11 @@ def run_condition(key):
             x[idx] = np.outer(v, v.conj())
     amp = key['amp']
     x = x * amp
+    lay = key.get('layout', 'C')
+    if lay == 'adjoint_view':
+        x = np.swapaxes(np.ascontiguousarray(np.swapaxes(x, -1, -2).conj()), -1, -2).conj()   # = x, as a view
+    elif lay != 'C':
+        x = A.relayout(x, lay)
     x.setflags(write=False)
     try:
         got = bf.condition_covariance(x, gamma)
@@ -260,7 +265,10 @@ def subchecks(tier, seed):
                 for gamma in (0.0, 1e-6, 0.1, 10.0):
                     for kind in ('hpd', 'rank1'):
                         for amp in (1.0, 1e-12, 1e-30, 1e12, 0.0):
-                            yield (lead, D, gamma, kind, amp, seed)
-    subs.append(Sub('condition_covariance', ('lead', 'D', 'gamma', 'kind', 'amp', 'seed'), cond_cases,
+                            yield (lead, D, gamma, kind, amp, 'C', seed)
+                        if D in (2, 3) and gamma in (0.1, 10.0):
+                            for lay in ('F', 'perm', 'strided', 'neg', 'adjoint_view'):
+                                yield (lead, D, gamma, kind, 1.0, lay, seed)
+    subs.append(Sub('condition_covariance', ('lead', 'D', 'gamma', 'kind', 'amp', 'layout', 'seed'), cond_cases,
                     run_condition))
     return subs
